@@ -229,20 +229,21 @@ class LazyRef:
         raise ValueError(f'lazyref.get: {op}')
 
     def probe(self, node, path, j):
-        """Index j == len(node) is asked for (end-of-data probe of a batch). Only a batch(drop_last=True) evaluates
-        something for it: the examples of its dropped incomplete batch (one batch of look-ahead)."""
-        if node['op'] == 'batch' and node['drop_last']:
+        """Index j >= len(node) is asked for (the end-of-data probe of a batch above). A batch evaluates what exists of
+        its j-th chunk (the dropped incomplete batch) and passes the probe on; element-wise stages pass it on."""
+        op = node['op']
+        if op == 'batch':
             (c, cp), = self.kids(node, path)
             n = ev(c).n
-            for jj in range(j * node['n'], n):
+            start = j * node['n']
+            for jj in range(start, min(n, start + node['n'])):
                 self.get(c, cp, jj)
-            if (j + 1) * node['n'] > n:
-                self.probe(c, cp, n)
-        elif node['op'] in ('map', 'frag', 'parmap', 'cache', 'copy', 'items', 'batch_map'):
+            if start + node['n'] > n:
+                self.probe(c, cp, max(n, start))
+        elif op in ('map', 'frag', 'parmap', 'nonemap', 'cache', 'copy', 'items', 'batch_map'):
             (c, cp), = self.kids(node, path)
             self.probe(c, cp, j)
-        elif node['op'] == 'slice':
-            pass  # index error comes from the index array
+        # selections, concatenations, sources: the IndexError comes from index arithmetic, nothing is evaluated
 
     def getkey(self, node, path, k):
         op = node['op']
